@@ -109,7 +109,7 @@ def model (arg : String) : String :=
     match convertSong r.song r.data r.volume with
     | .error (.writer e) => werrMsg e
     | .error (.codec .atEmpty) => "exc:out_of_range"
-    | .error (.codec .stackEmpty) => "UB:stack-top-on-empty"
+    | .error (.codec .stackEmpty) => "err:loopCmdWithoutStart"   -- an InputError since repository fix 3e0ed67
     | .error .macroUnmodelled =>
       -- the first-layer model stops at macro tracks; the constructor model (C09's, over which the whole-song
       -- theorems are stated) has them
@@ -173,6 +173,13 @@ def judgeC02 (arg impl : String) (same : Bool := true) : String :=
       -- a platform command whose text is malformed (empty, missing or out-of-range argument) is an input
       -- error when it is used: such a song is outside the encodable domain
       if impl == "err:platformBad" then "ok" else "skip"
+    else if r.data.platform.any (fun p => match p.2 with
+        | some evs => evs.any fun e => [mds_LP, mds_LPB, mds_LPBL, mds_LPF, mds_JUMP, mds_FINISH, mds_PAT, mds_SEGNO, mds_DMFINISH].contains e.type
+        | none => false) then
+      -- a raw `cmd` that injects a structural sequence command (loop, jump, call, end) bypasses the song
+      -- structure the specification speaks about: outside the encodable domain (the converter refuses an
+      -- unbalanced loop command since repository fix 3e0ed67)
+      "skip"
     else if impl.startsWith "err:" ∨ impl.startsWith "exc:" then
       s!"fail valid encodable song rejected: {impl}"
     else
@@ -215,6 +222,10 @@ def judgeC03 (arg impl : String) : String :=
     let countsOk := r.song.tracks.all fun (_, t) => t.all fun e =>
       e.type ≠ ev_LOOP_END || (decide (1 ≤ e.param) && decide (e.param ≤ 255))
     if !countsOk then "skip" else
+    -- a raw `cmd` that injects a structural sequence command writes the stream by hand: not a compiled song
+    if r.data.platform.any (fun p => match p.2 with
+        | some evs => evs.any fun e => [mds_LP, mds_LPB, mds_LPBL, mds_LPF, mds_JUMP, mds_FINISH, mds_PAT, mds_SEGNO, mds_DMFINISH].contains e.type
+        | none => false) then "skip" else
     match (field impl "seq=").bind bytesOfHexNat with
     | none => "fail no sequence"
     | some seq =>
